@@ -169,6 +169,35 @@ CHECKS['C12'] = {
     'note': "Hook: cargo feature verif-hooks of the selium crate (one added method, off by default). Sleeps, QUIC handshakes and timeouts are not modelled.",
     'design': 'DESIGN.md section 3 C12',
 }
+
+CHECKS['C11'] = {
+    'technique': 'machine-checked proof in Coq over the registration path translated statement-by-statement from server/src/server.rs (symbolic execution for every table, name and role; induction over registration sequences) and over the router LTS + raw-peer scenarios on the real server over loopback QUIC',
+    'text': ("The body of handle_stream is translated on every run into a small instruction language (lock, unlock, replies with their codes, topic creation, hand-off, the three conditions); "
+             "Frame::get_topic and the client's handle_reply are translated too. PROVED for every table, every name, every first frame of the eight kinds: a frame without a topic is closed without "
+             "any reply (never Ok); a register frame is either answered Ok with the socket in the queue of a router of exactly the messaging pattern asked for, or refused with INVALID_TOPIC_NAME / "
+             "TOPIC_KIND_MISMATCH and nothing changed; never Ok-then-abandoned, never a panic, the lock always released; for every sequence of registrations the kind of an existing topic never "
+             "changes and a registration that fits it is still served afterwards; the client library reports every first reply other than Ok as an error carrying the server's code. "
+             "PROVED on the router LTS: no sequence of frames of any kind from requestors/repliers/publishers in any schedule makes a router panic. TIED to the code: raw peers open streams with all eight "
+             "first-frame kinds on valid/invalid/reserved names in both messaging patterns and send unexpected and oversized-once-tagged frames mid-stream; the first reply of every stream is compared "
+             "with the model's, and afterwards real clients must get service on every acknowledged topic and on a fresh one; the router simulations feed arbitrary frame kinds."),
+    'note': "Partial where the runtime decides: QUIC stream closure, tokio::spawn and the wire encoding of replies are observed, not modelled; the __cloud feature branch is off and skipped. Reading adopted: a first frame without a topic may be closed with no reply.",
+    'design': 'DESIGN.md section 3 C11',
+}
+
+CHECKS['C17'] = {
+    'technique': 'machine-checked proof in Coq (small-step semantics of any number of concurrent registrations over the global lock and bounded per-topic queues, for the program translated from handle_stream: invariant + constructive progress) + stall scenario on the real server over loopback QUIC',
+    'text': ("Partial (that a non-reading subscriber stalls its router, and mutex fairness, are runtime facts). The registration path is translated from server/src/server.rs on every run, including where the "
+             "lock is taken and dropped, where replies are written and whether the socket is handed over through the task's own clone of the topic sender; SOCK_CHANNEL_SIZE is read from both routers. "
+             "PROVED for every reachable state of the system of arbitrarily many registration tasks, with routers that adopt registrations or not at will: the translated program never executes an "
+             "instruction that can wait for a peer or a router while it holds the table lock, never takes the lock twice and touches the table only under it; hence the holder of the lock can always "
+             "take its next step and releases the lock after finitely many of its own steps; and every registration whose own peer reads runs to completion helped only by its own topic's router and by "
+             "whoever holds the lock at that moment - no step of another topic's router or of another registration outside its locked section is needed, however many registrations are queued or "
+             "parked anywhere. The model reproduces the repaired defect (hand-off under the lock: the 101st registration blocks holding the lock). TIED to the code: a subscriber that stops reading, "
+             "1 MB messages until the router blocks, N in {0,95,100,101,102,110,130,250} further registrations on that topic before/after/around the stall, then a pub/sub and a request/reply round trip "
+             "on other topics within a deadline; the model's prediction for the same N is compared."),
+    'note': "Modelled, not verified: futures-channel bounded mpsc parking semantics, tokio Mutex fairness, QUIC flow control; topic_handles is taken to be locked only briefly.",
+    'design': 'DESIGN.md section 3 C17',
+}
 HOOK_COMMITS = ['f262eac']
 
 ALL = ['C%02d' % i for i in range(1, 18)]
